@@ -285,6 +285,9 @@ where
             let mut is_awaiting_discoveries = false;
             for (i, property) in properties.iter().enumerate() {
                 if discoveries.contains_key(property.name) {
+                    // Stop tracking: the condition is no longer evaluated along this path, so
+                    // a later terminal state must not replace the discovery.
+                    ebits.remove(i);
                     continue;
                 }
                 match property {
